@@ -90,13 +90,6 @@ def fnvStep (h : UInt64) (x : Nat) : UInt64 := (h ^^^ x.toUInt64) * 109951162821
 def fnvBytes (h : UInt64) (b : Bytes) : UInt64 := b.foldl fnvStep h
 def fnvInit : UInt64 := 14695981039346656037
 
-def writeBytes : Write → Nat × Nat × Bytes      -- (kind, offset, data)
-  | .hdr id => (0, 0, encodeTrieHeader id)
-  | .trieAppend c => (1, 0, encodeCell c)
-  | .trieSet i c => (0, i * Layout.trieBlock, encodeCell c)
-  | .linkHdr => (2, 0, encodeLinkHeader)
-  | .linkAppend s => (3, 0, encodeStub s)
-
 def eventBytes : Event → Nat × Nat × Bytes
   | .write w => writeBytes w
   | .truncTrie => (4, 0, [])
